@@ -5,6 +5,11 @@
    byte strings are hex, the empty string is "-".  '#' starts a comment line. *)
 open Model
 
+let hexval_opt c = match c with
+  | '0'..'9' -> Char.code c - 48
+  | 'a'..'f' -> Char.code c - 87
+  | 'A'..'F' -> Char.code c - 55
+  | _ -> -1
 let hexval c = match c with
   | '0'..'9' -> Char.code c - 48
   | 'a'..'f' -> Char.code c - 87
@@ -63,6 +68,32 @@ let hex_of_bytes (b : n list) =
   if b = [] then "-" else
   String.concat "" (List.map (fun x -> Printf.sprintf "%02x" (int_of_n x)) b)
 
+(* outputs of earlier operations by script line:  @N ~K <K +HEX  (see cdrv.c) *)
+let saved : (int, n list) Hashtbl.t = Hashtbl.create 1024
+let rec take_n k l = if k <= 0 then [] else match l with [] -> [] | x :: r -> x :: take_n (k-1) r
+let parse_ref (s : string) : n list =
+  let len = String.length s in
+  let pos = ref 1 in
+  let read_hex () =
+    let st = !pos in
+    while !pos < len && hexval_opt s.[!pos] >= 0 do incr pos done;
+    String.sub s st (!pos - st) in
+  let ln = int_of_string ("0x" ^ read_hex ()) in
+  let cur = ref (try Hashtbl.find saved ln with Not_found -> []) in
+  while !pos < len do
+    let op = s.[!pos] in
+    incr pos;
+    let h = read_hex () in
+    (match op with
+     | '+' -> cur := !cur @ bytes_of_hex (if h = "" then "-" else h)
+     | '~' -> let v = int_of_string ("0x" ^ h) in
+              cur := List.mapi (fun i x -> if i = v lsr 3 then small_n ((int_of_n x) lxor (0x80 lsr (v land 7))) else x) !cur
+     | '<' -> let v = int_of_string ("0x" ^ h) in cur := take_n v !cur
+     | _ -> ())
+  done;
+  !cur
+let parse_barg s = if String.length s > 0 && s.[0] = '@' then parse_ref s else bytes_of_hex s
+
 let opcodes = Hashtbl.create 64
 let () = List.iter (fun (n, c) -> Hashtbl.replace opcodes n c) [
   "kl_set", 1; "kl_poke", 2; "kl_upd", 3;
@@ -74,7 +105,8 @@ let () = List.iter (fun (n, c) -> Hashtbl.replace opcodes n c) [
   "policy", 50; "create", 51; "add", 52; "remove", 53; "update", 54; "dealloc", 55;
   "protect", 56; "unprotect", 57; "protect_rtcp", 58; "unprotect_rtcp", 59;
   "setroc", 60; "getroc", 61; "trailer", 62; "poke_limit", 63; "poke_rtcp", 64; "poke_index", 65;
-  "failnth", 66; "peek", 67; "spec_rtp", 70; "spec_rtcp", 71; "spec_kdf", 72 ]
+  "failnth", 66; "peek", 67; "stream_update", 68; "nstreams", 69;
+  "spec_rtp", 70; "spec_rtcp", 71; "spec_kdf", 72; "heap", 73; "secret", 74; "icm", 33 ]
 
 let () =
   let st = ref ms_init in
@@ -95,8 +127,11 @@ let () =
         let (ints, bts) = split [] rest in
         let code = try Hashtbl.find opcodes name with Not_found -> 0 in
         let (st', outs) = run_op !st (z_of_hex (Printf.sprintf "%x" code))
-                            (List.map z_of_hex ints) (List.map bytes_of_hex bts) in
+                            (List.map z_of_hex ints) (List.map parse_barg bts) in
         st := st';
+        (match List.filter (function OB _ -> true | _ -> false) outs with
+         | OB b :: _ -> Hashtbl.replace saved !lineno b
+         | _ -> ());
         let strs = List.map (function OZ z -> hex_of_z z | ON n -> hex_of_n n | OB b -> hex_of_bytes b) outs in
         print_string (string_of_int !lineno ^ " " ^ name);
         List.iter (fun s -> print_char ' '; print_string s) strs;
